@@ -264,33 +264,54 @@ def check_once_idiom(call, idiom, state_loop, ix, defs):
         return "the insert into `needed` must sit under exactly one condition"
     cj = conj_list(the_if[0]["cond"])
     info_b = None
+    filter_conds = []          # (condition, id of the closure parameter that stands for the signal) from `.filter(|info| ..)` on the lookup
     for c in cj:
         if c.get("k") == "letexpr":
-            sb_, sms_ = chain(c["init"])
+            sb_, sms_ = norm_.deep_chain(ix, defs, c["init"])
             fps = field_path(sb_)
             if fps and fps[0] == "self" and fps[2] == ["signals"] and [m_[0] for m_ in sms_][:1] == ["get"]:
                 bs = pat_bindings(c["pat"])
                 info_b = bs[0] if len(bs) == 1 else None
+                for m_ in sms_[1:]:
+                    cl_ = resolve(m_[1][0]) if len(m_[1]) == 1 else {}
+                    if m_[0] == "filter" and cl_.get("k") == "closure" and len(cl_.get("params", [])) == 1:
+                        pbs_ = pat_bindings(cl_["params"][0])
+                        if len(pbs_) != 1:
+                            return "the lookup in self.signals is filtered by a closure that destructures its argument"
+                        for fc in conj_list(norm_.tail_value(cl_["body"])):
+                            filter_conds.append((fc, pbs_[0][1]))
+                    elif m_[0] in ("and_then", "map", "as_ref", "flatten", "copied", "cloned", "as_deref"):
+                        # `.and_then(|entry| entry.as_ref())`: unwrapping the slot only
+                        if cl_.get("k") == "closure":
+                            tb_, tms_ = chain(norm_.tail_value(cl_["body"]))
+                            if [x_[0] for x_ in tms_] not in ([], ["as_ref"], ["as_ref", "copied"], ["clone"]) or peel(tb_).get("k") != "local":
+                                return "the lookup in self.signals is transformed by `%s`" % show(cl_)[:60]
+                    else:
+                        return "the lookup in self.signals goes through `%s`" % m_[0]
     key = field_path(ins[0]["args"][0])
     if info_b is None or not (key and key[1] is not None and canon(key[1]) == canon(info_b[1]) and key[2] == ["id"]):
         return "the inserted key must be the id of the signal looked up in self.signals"
 
-    def allowed(c):
+    def allowed(c, who=None):
         """`!info.is_state` or `info.uses.init > 0`"""
+        who = who if who is not None else info_b[1]
         c = resolve(c)
         if c.get("k") == "unary" and c["op"] == "!":
             fp_ = field_path(c["e"])
-            return bool(fp_) and fp_[1] is not None and canon(fp_[1]) == canon(info_b[1]) and fp_[2] == ["is_state"]
+            return bool(fp_) and fp_[1] is not None and canon(fp_[1]) == canon(who) and fp_[2] == ["is_state"]
         if c.get("k") == "binary" and c["op"] in (">", "!=", ">="):
             fp_ = field_path(c["l"])
             v = peel(c["r"]).get("v")
-            return bool(fp_) and fp_[1] is not None and canon(fp_[1]) == canon(info_b[1]) and fp_[2] == ["uses", "init"] and ((c["op"] in (">", "!=") and v == 0) or (c["op"] == ">=" and v == 1))
+            return bool(fp_) and fp_[1] is not None and canon(fp_[1]) == canon(who) and fp_[2] == ["uses", "init"] and ((c["op"] in (">", "!=") and v == 0) or (c["op"] == ">=" and v == 1))
         return False
     for c in cj:
         if c.get("k") == "letexpr":
             continue
         if not allowed(c):
             return "extra condition `%s` on membership in `needed`: some init-use signal of this init expression might never be defined" % show(c)[:60]
+    for fc, who in filter_conds:
+        if not allowed(fc, who):
+            return "extra condition `%s` on membership in `needed`: some init-use signal of this init expression might never be defined" % show(fc)[:60]
     # complete worklist from `init`
     loop = ix.enclosing(ins[0], ("while",))
     if loop is None or not contains(state_loop["body"], loop):
